@@ -1738,8 +1738,6 @@ class _Date(Vector):
 				raise ValueError(f"Length mismatch: {len(self)} != {len(other)}")
 			if other.schema().kind == str:
 				return Vector(tuple(False if (x is None or y is None) else bool(op(x, date.fromisoformat(y))) for x, y in zip(self, other, strict=True)), dtype=DataType(bool))
-			if other.schema().kind == datetime:
-				return Vector(tuple(False if (x is None or y is None) else bool(op(datetime.combine(x, datetime.time(0, 0)), y)) for x, y in zip(self, other, strict=True)), dtype=DataType(bool))
 		elif isinstance(other, Iterable) and not isinstance(other, (str, bytes, bytearray)):
 			# Raise mismatched lengths
 			if len(self) != len(other):
@@ -1748,8 +1746,6 @@ class _Date(Vector):
 			return Vector(tuple(False if (x is None or y is None) else bool(op(x, y)) for x, y in zip(self, other, strict=True)), dtype=DataType(bool))
 		elif isinstance(other, str):
 			return Vector(tuple(False if x is None else bool(op(x, date.fromisoformat(other))) for x in self), dtype=DataType(bool))
-		elif isinstance(other, datetime):
-			return Vector(tuple(False if x is None else bool(op(datetime.combine(x, datetime.time(0, 0)), other)) for x in self), dtype=DataType(bool))
 		# finally, 
 		return super()._elementwise_compare(other, op)
 
